@@ -289,12 +289,33 @@ CHECKS = {
         "Findings: F-FM, F-FM-CLOSE, F-FM-YAML-TYPEERROR/-READER/-TESTHOOK, F-EA-IMG-ALT, F-HTML-LEADNL."),
 }
 
+# Building blocks integrated after the first build (builder sessions): sentences appended to level_claimed.text / technique.
+EXTRA = {
+ "C01": dict(text=" Over Verif.Model.BqCount (faithful model of block_quote_count_helper.count_block_quote_starts and its helpers, arbitrary stack / flags, explicit IndexError / "
+                  "AssertionError / divergence): loop_fuel_mono, count_terminates (the fuel len+2 is never exhausted when the start index is inside the line), count_diverges (outside the line the "
+                  "real loop hangs: witness), count_total and count_bounds (list-free stack, caller's guard). Tie: real function vs model on all strings <= 7 over {>, space, tab, a, -} x start index x 16 stack "
+                  "configurations (3.4 M calls thorough)."),
+ "C02": dict(text=" Over Verif.Model.Coalesce (faithful model of coalesce_text_blocks, TextMarkdownToken.combine / remove_final_whitespace, both modes): merge_preserves_content, "
+                  "coalesce_preserves_content (flatten unchanged; hypotheses with witnesses content_excluded_final / _tab), coalesceOnly_preserves_text, coalesce_preserves_nonText, coalesce_marks_spec, "
+                  "coalesce_error_iff. Tie: spy on the real pass during real parses + synthetic lists of real token objects (590 k cases thorough)."),
+ "C03": dict(text=" Over Verif.Model.BqCount: count_eq_spec (the faithful marker count = an independent recursive specification), specStack_eq_specCM / count_eq_commonmark_partial (= the CommonMark "
+                  "block-quote-marker definition under the stated hypothesis; witness commonmark_excluded '>  >')."),
+ "C04": dict(text=" Over Verif.Model.Coalesce: coalesce_preserves_wf (WellNested and ClassOK of the stream survive the coalesce pass; blank_in_code_is_rejected shows the pass repairs the block-pass stream), "
+                  "coalesce_no_adjacent_text, coalesce_no_blank_in_code."),
+ "C05": dict(text=" Over Verif.Model.LeafPos (faithful model of PositionMarker / index_indent / realize_leading_whitespace and the position each leaf processor assigns): atx_pos_true, thematic_pos_true, "
+                  "fence_pos_true, setext_pos_true, paragraph_pos_true, indented_pos_true_partial (+ indented_pos_excluded = F-ICODE-BLANK-IN-LIST), leafView_spec, opener_is_source_char, atx_pos_source "
+                  "— for all lines, all container indents: the column points at the element's own opening character of the tab-expanded line and lies within it. Over Verif.Model.Coalesce: "
+                  "merged_position_first. Tie: real tokens of all strings <= 6 over each recogniser alphabet at top level and <= 5 behind '> ', '- ', '1. ', '   ' (526 k documents thorough)."),
+}
+
 def main():
     checks = []
     for pid in ALL:
         if pid not in CHECKS:
             continue
-        c = CHECKS[pid]
+        c = dict(CHECKS[pid])
+        for k, v in EXTRA.get(pid, {}).items():
+            c[k] = c[k] + v
         checks.append({
             "property_id": pid,
             "quick_cmd": f"./check {pid} --tier quick",
